@@ -406,3 +406,85 @@ Lemma mirror_example_ok :
   m_local (mrun (mirror_example ++ settle 10)) = [1; 2; 3; 4; 5; 6] /\
   m_mode (mrun (mirror_example ++ settle 10)) = MStopped.
 Proof. repeat split; reflexivity. Qed.
+
+(* ---------- the header line, for every chunking ---------- *)
+Lemma split_nl_some c a rest : split_nl c = Some (a, rest) -> c = a ++ 10 :: rest /\ no_nl a = true.
+Proof.
+  revert a rest; induction c as [|b r IH]; intros a rest H; simpl in H; [discriminate|].
+  destruct (b =? 10) eqn:E.
+  - inversion H; subst. apply N.eqb_eq in E. subst b. now split.
+  - destruct (split_nl r) as [[a' rest']|] eqn:Es; [|discriminate]. inversion H; subst.
+    destruct (IH a' rest eq_refl) as [-> Hn]. split; [reflexivity|]. simpl. now rewrite E.
+Qed.
+
+Lemma split_nl_none c : split_nl c = None -> no_nl c = true.
+Proof.
+  induction c as [|b r IH]; intro H; [reflexivity|]. simpl in H. simpl.
+  destruct (b =? 10); [discriminate|]. destruct (split_nl r) as [[a rest]|]; [discriminate|].
+  now rewrite IH.
+Qed.
+
+(* the first newline of a text is where it is *)
+Lemma first_nl_unique a : forall b x y,
+  no_nl a = true -> no_nl b = true -> a ++ 10 :: x = b ++ 10 :: y -> a = b /\ x = y.
+Proof.
+  induction a as [|k a IH]; intros [|j b] x y Ha Hb H; simpl in *.
+  - inversion H. now split.
+  - inversion H; subst j. simpl in Hb. discriminate.
+  - inversion H; subst k. simpl in Ha. discriminate.
+  - inversion H; subst j. apply andb_true_iff in Ha as [_ Ha]. apply andb_true_iff in Hb as [_ Hb].
+    destruct (IH b x y Ha Hb H2) as [-> ->]. now split.
+Qed.
+
+Lemma nl_free_prefix c : forall h x y,
+  no_nl c = true -> no_nl h = true -> c ++ x = h ++ 10 :: y ->
+  exists h', h = c ++ h' /\ x = h' ++ 10 :: y.
+Proof.
+  induction c as [|k c IH]; intros h x y Hc Hh H; simpl in *.
+  - exists h. now split.
+  - destruct h as [|j h]; simpl in H.
+    + inversion H; subst k. discriminate.
+    + inversion H; subst j. apply andb_true_iff in Hc as [_ Hc]. simpl in Hh.
+      apply andb_true_iff in Hh as [_ Hh].
+      destruct (IH h x y Hc Hh H2) as [h' [-> ->]]. now exists h'.
+Qed.
+
+Lemma no_nl_app a b : no_nl (a ++ b) = no_nl a && no_nl b.
+Proof. unfold no_nl. apply forallb_app. Qed.
+
+Lemma read_line_spec reads : forall acc hdr body,
+  no_nl hdr = true -> concat reads = hdr ++ 10 :: body ->
+  exists buffered r, read_line acc reads = Some (acc ++ hdr ++ [10], buffered, r) /\
+                     buffered ++ concat r = body.
+Proof.
+  induction reads as [|c r IH]; intros acc hdr body Hh Hc; simpl in Hc.
+  - destruct hdr; discriminate.
+  - simpl. destruct (split_nl c) as [[a rest]|] eqn:Es.
+    + destruct (split_nl_some _ _ _ Es) as [-> Ha]. rewrite <- app_assoc in Hc. simpl in Hc.
+      destruct (first_nl_unique a hdr _ _ Ha Hh Hc) as [-> Hb].
+      exists rest, r. split; [reflexivity|exact Hb].
+    + pose proof (split_nl_none _ Es) as Hn.
+      destruct (nl_free_prefix c hdr _ _ Hn Hh Hc) as [h' [-> Hx]].
+      rewrite no_nl_app in Hh. apply andb_true_iff in Hh as [_ Hh'].
+      destruct (IH (acc ++ c) h' body Hh' Hx) as [bf [r' [E B]]].
+      exists bf, r'. split; [|exact B]. rewrite E. now rewrite <- !app_assoc.
+Qed.
+
+(* mirror_header_any_chunking: however the connection cuts header and output into reads — the
+   header split at any position, its end in one read with the first output bytes, the output in any
+   pieces — the mirror takes exactly the header line and appends exactly what follows it *)
+Theorem mirror_header_any_chunking_thm : forall reads hdr body,
+  no_nl hdr = true -> concat reads = hdr ++ 10 :: body ->
+  client_mirror reads = Some (hdr ++ [10], body).
+Proof.
+  intros reads hdr body Hh Hc. unfold client_mirror.
+  destruct (read_line_spec reads [] hdr body Hh Hc) as [bf [r [E B]]]. rewrite E. simpl. now rewrite B.
+Qed.
+
+(* copying from the connection instead of the reader loses what arrived in the read that ended
+   the header line *)
+Theorem mirror_raw_copy_refuted_thm :
+  let reads := [[83; 116]; [114; 10; 1; 2]; [3]] in
+  client_mirror reads = Some ([83; 116; 114; 10], [1; 2; 3]) /\
+  client_mirror_raw reads = Some ([83; 116; 114; 10], [3]).
+Proof. split; reflexivity. Qed.
